@@ -417,7 +417,14 @@ func fileExists(filePath string) bool {
 	return !os.IsNotExist(err)
 }
 
-func findAndProcessOrigInitSegment(log *slog.Logger, ch *channel, stream stream) error {
+func findAndProcessOrigInitSegment(log *slog.Logger, ch *channel, stream stream) (err error) {
+	// The stored file is whatever was uploaded once. As in the upload itself, the MP4 library and the
+	// extraction of the codec data panic on some malformed data.
+	defer func() {
+		if r := recover(); r != nil {
+			err = fmt.Errorf("malformed stored init segment: %v", r)
+		}
+	}()
 	path := filepath.Join(stream.trDir, fmt.Sprintf("%s%s", "init_org", stream.ext))
 	if !fileExists(path) {
 		return nil
